@@ -378,13 +378,59 @@ class Ctx:
         log("[%s] driver %s: %.1fs" % (self.pid, args[0], wall))
         return out
 
-    def judge(self, module, trace_path, **kw):
-        verdicts, n, r = judge(self.work.sub("judge-" + module), module, trace_path, **kw)
+    def judge(self, module, trace_path, parallel=1, **kw):
+        if parallel > 1:
+            return self._judge_parallel(module, trace_path, parallel, **kw)
+        self._jn = getattr(self, "_jn", 0) + 1
+        verdicts, n, r = judge(self.work.sub("judge-%s-%d" % (module, self._jn)), module, trace_path, **kw)
         self.last_drift = len(r.tagged("DRIFT"))
         self.last_judge = r
         self.events_judged += n
         self.tlc_cmds.append(r.cmd)
         log("[%s] judge %s: %d events, %d verdicts, %.1fs" % (self.pid, module, n, len(verdicts), r.wall))
+        return verdicts
+
+    def _judge_parallel(self, module, trace_path, k, **kw):
+        """Round-robin split of the trace over k concurrent TLC judges (each event is judged on its
+        own, so the split does not change any verdict); indices are mapped back."""
+        import threading
+        lines = [l for l in open(trace_path) if l.strip()]
+        k = max(1, min(k, len(lines)))
+        self._jn = getattr(self, "_jn", 0) + 1
+        parts, results, errors = [], [None] * k, []
+        for c in range(k):
+            d = self.work.sub("judge-%s-%d-p%d" % (module, self._jn, c))
+            pth = os.path.join(d, "part.ndjson")
+            with open(pth, "w") as f:
+                f.writelines(lines[c::k])
+            parts.append((d, pth))
+
+        def work(c):
+            try:
+                results[c] = judge(parts[c][0], module, parts[c][1], **kw)
+            except Exception as e:      # noqa
+                errors.append(e)
+        ths = [threading.Thread(target=work, args=(c,)) for c in range(k)]
+        t0 = time.time()
+        for t in ths:
+            t.start()
+        for t in ths:
+            t.join()
+        if errors:
+            raise errors[0] if isinstance(errors[0], Inconclusive) else Inconclusive(str(errors[0]))
+        verdicts, total, drift = [], 0, 0
+        for c, (vd, n, r) in enumerate(results):
+            total += n
+            drift += len(r.tagged("DRIFT"))
+            for v in vd:
+                v = dict(v)
+                v["i"] = (v["i"] - 1) * k + c + 1
+                verdicts.append(v)
+            self.tlc_cmds.append(r.cmd)
+        verdicts.sort(key=lambda v: v["i"])
+        self.last_drift = drift
+        self.events_judged += total
+        log("[%s] judge %s x%d: %d events, %d verdicts, %.1fs" % (self.pid, module, k, total, len(verdicts), time.time() - t0))
         return verdicts
 
     # -- verdicts -------------------------------------------------------------------------
